@@ -264,6 +264,16 @@ func init() {
 						panic(errors.New(strings.Repeat("ошибка запроса ", 20))) // 300 runes, 580 bytes
 					case "panicint":
 						panic(42)
+					case "panicis": // an error that claims to be every other error
+						panic(matchesAnything{})
+					case "panicnilptr": // a typed nil pointer whose Error method dereferences its receiver
+						var e *nilReceiverError
+						panic(e)
+					case "errnil": // t.Error(nil): marks the failure, does not stop the iteration
+						t.Error(nil)
+						return
+					case "fatalnil":
+						t.Fatal(nil)
 					case "timefail": // the failure is raised inside a timed stage
 						initGlobalMetrics()
 						t.Time("stage", func() { t.FailNow() })
